@@ -1,51 +1,82 @@
 #!/usr/bin/env python3
-"""Confirm a seeded mutation (builds, existing suite passes, demo fails with / passes without) in its scratch worktree,
-then run the given checks against it in /repo (apply, check, undo). usage: evalmut.py <worktree> <mutationN> <check ids...>"""
+"""Confirm a seeded mutation in its scratch worktree (patch applies, builds, existing suite passes, demo fails with /
+passes without), then run the given checks against it.
+
+usage: evalmut.py [--inrepo] [--noconfirm] <worktree> <mutationN> <check ids...>
+
+Default: the checks run against the scratch worktree with the patch applied (VERIF_REPO=<worktree>), so several
+evaluations can run side by side and /repo is never touched. With --inrepo the patch is applied to /repo
+(git -C /repo apply), the checks run, and it is undone straight afterwards (git -C /repo checkout -- .).
+Evidence of these runs goes to /tmp/muteval/evidence, never to /verif/evidence."""
 import sys, os, re, subprocess, json, shutil
-wt, mut, checks = sys.argv[1], sys.argv[2], sys.argv[3:]
+args = sys.argv[1:]
+inrepo = '--inrepo' in args
+noconfirm = '--noconfirm' in args
+args = [a for a in args if not a.startswith('--')]
+wt, mut, checks = args[0], args[1], args[2:]
 env = dict(os.environ, GOFLAGS='-mod=mod', GOPROXY='off', GOSUMDB='off', GOTOOLCHAIN='local')
 md = os.path.join(wt, mut)
-def sh(cmd, cwd, timeout=1800):
-    p = subprocess.run(cmd, shell=True, cwd=cwd, env=env, capture_output=True, text=True, timeout=timeout)
+def sh(cmd, cwd, timeout=3600, extra=None):
+    e = dict(env)
+    if extra: e.update(extra)
+    p = subprocess.run(cmd, shell=True, cwd=cwd, env=e, capture_output=True, text=True, timeout=timeout)
     return p.returncode, (p.stdout + p.stderr)
 demo = open(os.path.join(md, 'demo_test.go')).read()
 pkg = re.search(r'^package (\w+)', demo, re.M).group(1).replace('_test', '')
 pkgdir = {'lz4': 'compression/lz4', 'snappy': 'compression/snappy'}.get(pkg, pkg)
 res = {'worktree': wt, 'mutation': mut, 'demo_package_dir': pkgdir}
-sh('git checkout -- . && git clean -fdq -e mutation1 -e mutation2', wt)
-dst = os.path.join(wt, pkgdir, 'zz_demo_test.go')
-shutil.copy(os.path.join(md, 'demo_test.go'), dst)
-rc, out = sh(f'go test -vet=off -count=1 -run "Mutation|Demo|C[0-9][0-9]|Test" ./{pkgdir} 2>&1 | tail -5', wt)
+notes = ''
+if os.path.exists(os.path.join(md, 'notes.md')):
+    notes = open(os.path.join(md, 'notes.md')).read()
+race = ' -race' if re.search(r'-race', notes) else ''
+res['demo_needs_race'] = bool(race)
+sh('git checkout -- . && git clean -fdq -e mutation1 -e mutation2 -e PROPERTY.json', wt)
 names = re.findall(r'^func (Test\w+)', demo, re.M)
 runre = '^(' + '|'.join(names) + ')$'
-rc, out = sh(f'go test -vet=off -count=1 -run "{runre}" ./{pkgdir}', wt)
-res['demo_passes_on_clean'] = (rc == 0)
+dst = os.path.join(wt, pkgdir, 'zz_demo_test.go')
+if not noconfirm:
+    shutil.copy(os.path.join(md, 'demo_test.go'), dst)
+    rc, out = sh(f'go test -vet=off -count=1{race} -run "{runre}" ./{pkgdir}', wt)
+    res['demo_passes_on_clean'] = (rc == 0)
+    if rc != 0: res['demo_clean_output_tail'] = out[-600:]
 rc, out = sh(f'git apply {mut}/patch.diff', wt)
 res['patch_applies'] = (rc == 0)
-rc, out = sh('go build ./...', wt)
-res['builds'] = (rc == 0)
-rc, out = sh(f'go test -vet=off -count=1 -run "{runre}" ./{pkgdir}', wt)
-res['demo_fails_with_mutation'] = (rc != 0)
-res['demo_output_tail'] = out[-600:]
-os.remove(dst)
-rc, out = sh("unshare -n sh -c 'ip link set lo up && go test -vet=off -count=1 $(go list ./... | grep -v /mutation)' 2>&1 | grep -v 'no test files' | tail -12", wt)
-res['existing_suite_passes_with_mutation'] = ('FAIL' not in out and 'ok' in out)
-res['suite_tail'] = out[-500:]
-sh('git checkout -- .', wt)
-# run checks against /repo
+if not noconfirm:
+    rc, out = sh('go build ./...', wt)
+    res['builds'] = (rc == 0)
+    rc, out = sh(f'go test -vet=off -count=1{race} -run "{runre}" ./{pkgdir}', wt)
+    res['demo_fails_with_mutation'] = (rc != 0)
+    res['demo_output_tail'] = out[-600:]
+    os.remove(dst)
+    if True:  # always in a private network namespace: the client tests bind fixed ports and clash with parallel runs
+        rc, out = sh("unshare -n sh -c 'ip link set lo up && go test -vet=off -count=1 $(go list ./... | grep -v /mutation)' 2>&1 | grep -v 'no test files' | tail -12", wt)
+    res['existing_suite_passes_with_mutation'] = ('FAIL' not in out and 'ok' in out)
+    res['suite_tail'] = out[-500:]
 res['checks'] = {}
-rc, out = sh(f'git -C /repo apply {md}/patch.diff', '/verif')
-if rc != 0:
-    res['repo_apply_error'] = out
+evdir = '/tmp/muteval/evidence/%s-%s' % (os.path.basename(wt), mut)
+os.makedirs(evdir, exist_ok=True)
+extra = {'VERIF_EVIDENCE_DIR': evdir}
+ok = True
+if inrepo:
+    sh('git checkout -- .', wt)
+    rc, out = sh(f'git -C /repo apply {md}/patch.diff', '/verif')
+    if rc != 0:
+        res['repo_apply_error'] = out; ok = False
 else:
-    try:
+    extra['VERIF_REPO'] = wt
+try:
+    if ok:
         for c in checks:
-            rc, out = sh(f'./check {c} quick 2>&1 | grep -a "VIOLATION\\|SUMMARY\\|INCONCLUSIVE\\|KNOWN\\|^  " | cut -c1-400 | head -12', '/verif', timeout=3600)
+            rc, out = sh(f'./check {c} quick 2>&1 | grep -a "VIOLATION\\|SUMMARY\\|INCONCLUSIVE\\|KNOWN\\|CHECK-ERROR\\|^  " | cut -c1-400 | head -14', '/verif', timeout=5400, extra=extra)
             verdict = 'pass'
             if 'VIOLATION' in out: verdict = 'VIOLATION'
-            elif 'INCONCLUSIVE' in out: verdict = 'inconclusive'
+            elif 'INCONCLUSIVE' in out or 'CHECK-ERROR' in out: verdict = 'inconclusive'
             elif 'exit=0' not in out: verdict = 'error'
-            res['checks'][c] = {'verdict': verdict, 'output': out[-1500:]}
-    finally:
+            res['checks'][c] = {'verdict': verdict, 'output': out[-1800:]}
+finally:
+    if inrepo:
         sh('git -C /repo checkout -- .', '/verif')
+    else:
+        sh('git checkout -- .', wt)
+res['checks_ran_in'] = '/repo (apply/undo)' if inrepo else 'scratch worktree (VERIF_REPO)'
 print(json.dumps(res, indent=1))
